@@ -347,8 +347,15 @@ theorem visible_addTomb {ts : Intervals} {iv : Interval} (hc : AddCoversAt ts iv
 
 /-- (d) `DB.Delete`: exactly the samples of the selected series with `a ≤ t ≤ b` disappear
     (`Inv` and `Sim` are preserved; `LastVis` is not — that is finding F28). -/
-theorem delete_preserves {d : Db} {r : Ref} (hI : Inv d) (hS : Sim d r) (hC : CoverHyp d)
-    (a b : Int) (sel : Option Nat) :
+theorem delete_preserves_at {d : Db} {r : Ref} (hI : Inv d) (hS : Sim d r)
+    (a b : Int) (sel : Option Nat)
+    (hCh : ∀ s ∈ d.series, hitSel sel s.idx = true → ∀ f l, s.phys.head? = some f → s.phys.getLast? = some l →
+      (d.minT ≤ b ∧ a ≤ d.maxT) →
+      AddCoversAt s.tombs ⟨(clampInterval (clampInterval a b d.minT d.maxT).1 (clampInterval a b d.minT d.maxT).2 f.t l.t).1,
+                           (clampInterval (clampInterval a b d.minT d.maxT).1 (clampInterval a b d.minT d.maxT).2 f.t l.t).2⟩)
+    (hCb : ∀ blk ∈ d.blocks, ∀ s ∈ blk.series, hitSel sel s.idx = true → ∀ f l, s.smps.head? = some f →
+      s.smps.getLast? = some l → (s.smps.any fun x => a ≤ x.t ∧ x.t ≤ b) = true →
+      AddCoversAt s.tombs ⟨(clampInterval a b f.t l.t).1, (clampInterval a b f.t l.t).2⟩) :
     Inv (d.delete a b sel) ∧ Sim (d.delete a b sel) (r.del a b sel) := by
   obtain ⟨e1, e2, e3, e4, e5⟩ := delete_scalars d a b sel
   have hd : d.delete a b sel = { d with series := d.series.map (fun s => { s with tombs := delHT d a b sel s }), blocks := d.blocks.map (fun blk => { blk with series := blk.series.map (fun s => { s with tombs := delBT a b sel blk s }) }), wal := (d.delete a b sel).wal } :=
@@ -392,7 +399,7 @@ theorem delete_preserves {d : Db} {r : Ref} (hI : Inv d) (hS : Sim d r) (hC : Co
           have h2 := (hI.physInc s hs).le_getLast hl x hx
           by_cases hh : hitSel sel s.idx = true
           · simp only [hh, if_true, Bool.true_and]
-            rw [visible_addTomb (hC.head s hs _)]
+            rw [visible_addTomb (hCh s hs hh f l hf hl (by assumption))]
             congr 2
             simp only [clampInterval]
             apply decide_eq_decide.2
@@ -429,8 +436,9 @@ theorem delete_preserves {d : Db} {r : Ref} (hI : Inv d) (hS : Sim d r) (hC : Co
             have h2 := (hI.blkInc blk hb s hs).le_getLast hl x hx
             simp only
             split
-            · simp only
-              rw [visible_addTomb (hC.blk blk hb s hs _)]
+            · rename_i hany
+              simp only
+              rw [visible_addTomb (hCb blk hb s hs hh f l hf hl hany)]
               congr 2
               simp only [clampInterval]
               apply decide_eq_decide.2
@@ -470,5 +478,12 @@ theorem delete_preserves {d : Db} {r : Ref} (hI : Inv d) (hS : Sim d r) (hC : Co
       · simp only [hh, Bool.false_eq_true, if_false] at hiv
         exact hI.tombHi s hs iv hiv l hl
     · exact hI.tombHi s hs iv hiv l hl
+
+/-- The same under the blanket coverage hypothesis. -/
+theorem delete_preserves {d : Db} {r : Ref} (hI : Inv d) (hS : Sim d r) (hC : CoverHyp d)
+    (a b : Int) (sel : Option Nat) :
+    Inv (d.delete a b sel) ∧ Sim (d.delete a b sel) (r.del a b sel) :=
+  delete_preserves_at hI hS a b sel (fun s hs _ _ _ _ _ _ => hC.head s hs _)
+    (fun blk hb s hs _ _ _ _ _ _ => hC.blk blk hb s hs _)
 
 end Prom.Db
